@@ -652,6 +652,10 @@ class Engine(object):
       self._update_loop(work_items)
       # Check if any potentially unused LookupMaps are still unused, and if so, delete them.
       for lookup_map in self._unused_lookups:
+        # A table's empty lookup map is permanent: Table._num_rows() and RenameTable rely on it.
+        table = self.tables.get(lookup_map.table_id)
+        if table is not None and lookup_map is table._empty_lookup_column:
+          continue
         if self.dep_graph.remove_node_if_unused(lookup_map.node):
           self.delete_column(lookup_map)
     finally:
